@@ -425,6 +425,7 @@ class Walker:
                 return
             st["blocks"].append(bi)
             if bi in self.cfg.loops:
+                st["events"].append(("loophead", bi, self.fn.path))
                 # loop header: the path through the body stands for an arbitrary iteration, so
                 # everything the loop assigns is unknown here (sound one-iteration abstraction)
                 locs, store = self.cfg.loop_assigned(bi)
